@@ -186,7 +186,22 @@ class ModelState:
                 whole, key = False, args[0]
             except TypeError:
                 pass
-        self._detach_same_parent(root, path, key, whole)
+        if isinstance(tgt, dict) and op == "update" and len(args) == 3:
+            # update() reassigns only the positions it names: children under the other keys stay attached
+            named = []
+            try:
+                other = args[1]
+                named += list(other) if isinstance(other, dict) else [p[0] for p in (other or [])]
+                named += list(args[2] or {})
+                for k in named:
+                    hash(k)
+                for k in named:
+                    self._detach_same_parent(root, path, k, False)
+                whole = None
+            except (TypeError, IndexError, KeyError):
+                whole = True
+        if whole is not None:
+            self._detach_same_parent(root, path, key, whole)
         # rule (i): kinds along every retained path
         self._recheck_kinds(res)
         # resource bookkeeping
